@@ -339,8 +339,16 @@ example : (run foldSimp exOracle {} exEnv
     Also covered (decoded by the frame-stack machine): LOG0..LOG4 — `WRelM` says `w'.logs = w.logs ++` the end's
     events evaluated under `I` (emitting account, topics, data bytes; the events of failed callees are gone, as in the
     EVM; LOG in a static frame is WriteInStaticContext) —, EXTCODESIZE / EXTCODECOPY on literal addresses, CODESIZE.
-    Symbolic call / EXTCODE* targets, precompiles (as call targets) and cheat-code addresses, and a call value other
-    than the literal 0 end the path stuck: an error report, about which nothing is claimed. Tagged ends (no claim):
+    With `cfg.balances` on (off: those instructions end the path stuck): BALANCE / SELFBALANCE and CALL / CALLCODE with
+    any value — `handle_insufficient_fund_case` (the insufficient-funds branch: flag 0, no return data), `transfer_value`
+    (the sufficiency condition, the two `Store`s), the value as the callee's `msg.value`, rolled back with the callee;
+    `WRelM` then says `w'.balanceOf a =` the model's balance array at `a` under `I` (`balSem`), for every account.
+    Two more hypotheses then, both visible: `hob` — the solver's `unsat` answers are right (`Exec.select` simplifies a
+    read of the balance array with them; nothing is assumed of the oracle when balances are off); `hbal` — `I`
+    interprets the initial balance array as the start world's balances and `balance_00` as the empty array.
+    Symbolic call / EXTCODE* targets, precompiles (as call targets) and cheat-code addresses end the path stuck: an
+    error report, about which nothing is claimed. Known finding kept out by the tag `staticValue`: a value-bearing
+    CALL in a static frame succeeds in the code (`TODO: revert if context is static`); the model stops there. Tagged ends (no claim):
     see `Tag` — among them `errKind` (LOG in a static frame with too few operands: the code reports
     WriteInStaticContext, the EVM a stack underflow). -/
 theorem sound_calls {s : Simp} (hs : SimpSound s) (o : Oracle) (cfg : Cfg) (env : Env)
@@ -349,20 +357,22 @@ theorem sound_calls {s : Simp} (hs : SimpSound s) (o : Oracle) (cfg : Cfg) (env 
     (hcodes : ∀ a, w.codeOf a = codeOf codes a)
     (hcb : ∀ a prog, codeOf codes a = some prog → ∀ b ∈ prog, b < 256)
     (hz : ∀ a, Modelled codes this a → ZeroStorage w a)
+    (hob : cfg.balances = true → OracleSound o)
     (ce : CEnd) (hce : ce ∈ (runC s o cfg env codes this fuel).ends)
     (htag : ce.e.tag = .normal) (h : Evm.Halt) (hout : ce.e.out = .halt h) (I : Interp) (hI : I.Std)
+    (hbal : cfg.balances = true → BalHyp I cfg w)
     (f0 : Evm.Frame) (hR0 : R I env ((codeOf codes this).getD []) p initState f0) (hthis : f0.this = this)
     (hd0 : f0.depth = 0) (hsat : Sat I ce.e.st.path) :
     ∃ n w', Evm.exec p n w f0 = some (w', haltWith h (ce.e.data.map (·.eval I))) ∧
-        WRelM I (Modelled codes this) w w' (stoOf ce.stores) (evalLogs I ce.logs) := by
+        WRelM I (Modelled codes this) w w' (stoOf ce.stores) (evalLogs I ce.logs) (balSem I w ce.bal) := by
   have hgood := exploreC_sound (o := o) (cfg := cfg) (codes := codes) (p := p) (w0 := w)
-    (S := Modelled codes this) (cs0 := initC env codes this) hs hmem hdep hcodes
-    (fun _ _ h => modelled_of_code h) hcb fuel 0 [initC env codes this] {} (by
+    (S := Modelled codes this) (cs0 := initC env codes this) (H := fun I => cfg.balances = true → BalHyp I cfg w)
+    hs hmem hdep hcodes (fun _ _ h => modelled_of_code h) hcb hob (fun _ h => h) fuel 0 [initC env codes this] {} (by
       intro cs hm
       rw [List.mem_singleton] at hm
       subst hm; exact goodC_init)
     (by intro e hm; cases hm)
-  obtain ⟨w', ⟨n, hn⟩, hW⟩ := hgood ce hce htag h hout I hI f0 (relC_init hR0 hthis hd0 hcb hz) hsat
+  obtain ⟨w', ⟨n, hn⟩, hW⟩ := hgood ce hce htag h hout I hI hbal f0 (relC_init hR0 hthis hd0 hcb hz) hsat
   exact ⟨n, w', hn, hW⟩
 
 /-! non-vacuity: a caller and a callee -/
@@ -410,8 +420,8 @@ example : ∃ n w', Evm.exec exPC n exWC { exF0 with code := callerCode } =
         simp only [Option.map_some, Option.some.injEq] at hc
         subst hc
         exact hall q (List.mem_of_find?_eq_some hf) b hb)
-    (fun _ _ _ => ⟨rfl, rfl⟩) ce hce htag (.success []) hout exI exI_std _ hR rfl rfl
-    (by rw [hp]; exact Sat.nil _)
+    (fun _ _ _ => ⟨rfl, rfl⟩) (fun h => by cases h) ce hce htag (.success []) hout exI exI_std (fun h => by cases h) _ hR
+    rfl rfl (by rw [hp]; exact Sat.nil _)
   refine ⟨n, w', ?_, ?_, ?_, ?_⟩
   · have hv : haltWith (.success []) (ce.e.data.map (·.eval exI)) = .success (List.replicate 31 0 ++ [0x2a]) := by
       rw [hd]; rfl
@@ -438,15 +448,37 @@ theorem sound_calls_logs {s : Simp} (hs : SimpSound s) (o : Oracle) (cfg : Cfg) 
     (hcodes : ∀ a, w.codeOf a = codeOf codes a)
     (hcb : ∀ a prog, codeOf codes a = some prog → ∀ b ∈ prog, b < 256)
     (hz : ∀ a, Modelled codes this a → ZeroStorage w a)
+    (hob : cfg.balances = true → OracleSound o)
     (ce : CEnd) (hce : ce ∈ (runC s o cfg env codes this fuel).ends)
     (htag : ce.e.tag = .normal) (h : Evm.Halt) (hout : ce.e.out = .halt h) (I : Interp) (hI : I.Std)
+    (hbal : cfg.balances = true → BalHyp I cfg w)
     (f0 : Evm.Frame) (hR0 : R I env ((codeOf codes this).getD []) p initState f0) (hthis : f0.this = this)
     (hd0 : f0.depth = 0) (hsat : Sat I ce.e.st.path) :
     ∃ n w', Evm.exec p n w f0 = some (w', haltWith h (ce.e.data.map (·.eval I))) ∧
         w'.logs = w.logs ++ ce.logs.map (fun l => (l.addr.eval I, l.topics.map (·.denote I), l.data.map (·.eval I))) := by
-  obtain ⟨n, w', hn, hW⟩ := sound_calls hs o cfg env codes this fuel p w hmem hdep hcodes hcb hz ce hce htag h hout I hI
-    f0 hR0 hthis hd0 hsat
-  exact ⟨n, w', hn, hW.rest.2.2.2.2⟩
+  obtain ⟨n, w', hn, hW⟩ := sound_calls hs o cfg env codes this fuel p w hmem hdep hcodes hcb hz hob ce hce htag h hout
+    I hI hbal f0 hR0 hthis hd0 hsat
+  exact ⟨n, w', hn, hW.logs⟩
+
+/-- the balances, spelled out: what `sound_calls` says with `cfg.balances` on — every account's final balance is the
+    value, under `I`, of the model's balance array (the `Store`s of the transfers over the start world's balances) -/
+theorem sound_calls_balances {s : Simp} (hs : SimpSound s) (o : Oracle) (cfg : Cfg) (env : Env)
+    (codes : List (Nat × List Nat)) (this : Nat) (fuel : Nat) (p : Evm.Params) (w : Evm.World)
+    (hmem : cfg.maxMem + 32 ≤ p.memLimit) (hdep : 1024 ≤ p.maxDepth)
+    (hcodes : ∀ a, w.codeOf a = codeOf codes a)
+    (hcb : ∀ a prog, codeOf codes a = some prog → ∀ b ∈ prog, b < 256)
+    (hz : ∀ a, Modelled codes this a → ZeroStorage w a)
+    (hob : cfg.balances = true → OracleSound o)
+    (ce : CEnd) (hce : ce ∈ (runC s o cfg env codes this fuel).ends)
+    (htag : ce.e.tag = .normal) (h : Evm.Halt) (hout : ce.e.out = .halt h) (I : Interp) (hI : I.Std)
+    (hbal : cfg.balances = true → BalHyp I cfg w)
+    (f0 : Evm.Frame) (hR0 : R I env ((codeOf codes this).getD []) p initState f0) (hthis : f0.this = this)
+    (hd0 : f0.depth = 0) (hsat : Sat I ce.e.st.path) :
+    ∃ n w', Evm.exec p n w f0 = some (w', haltWith h (ce.e.data.map (·.eval I))) ∧
+        ∀ a, w'.balanceOf a = balSem I w ce.bal a := by
+  obtain ⟨n, w', hn, hW⟩ := sound_calls hs o cfg env codes this fuel p w hmem hdep hcodes hcb hz hob ce hce htag h hout
+    I hI hbal f0 hR0 hthis hd0 hsat
+  exact ⟨n, w', hn, hW.bal⟩
 
 /-- events: the callee at 0x2000 emits `LOG1(topic 7, mem[0..32) = 0x2a)` and then stops (`logCallee true`) or hits
     INVALID (`logCallee false`); the caller calls it and emits an empty `LOG0`. On both sides the world's log is the
@@ -489,6 +521,44 @@ example :
     (Evm.exec exPC 40 { exWC with code := [(0x1000, extCode), (0x2000, calleeCode)] } { exF0 with code := extCode }).map
         (·.2) = some (.success (List.replicate 31 0 ++ [15] ++ List.replicate 31 0 ++ [26] ++ [0x60, 7, 0x60, 0])) := by
   decide +kernel
+
+/-- balances (`cfg.balances` on): the caller at 0x1000 — which holds 100 wei in the start world — sends 5 wei to
+    0x2000 and returns its own balance: `call(0, 0x2000, 5, 0, 0, 0, 0); pop; mstore(0, selfbalance()); return(0, 32)` -/
+def valCaller : List Nat :=
+  [0x60, 0, 0x60, 0, 0x60, 0, 0x60, 0, 0x60, 5, 0x61, 0x20, 0x00, 0x60, 0, 0xf1, 0x50, 0x47, 0x60, 0, 0x52,
+   0x60, 32, 0x60, 0, 0xf3]
+def valCodes : List (Nat × List Nat) := [(0x1000, valCaller), (0x2000, [0x00])]
+/-- `balance_0` is 100 at 0x1000 and 0 elsewhere; `balance_00` is the empty array -/
+def exIB : Interp := Interp.std (fun x _ => if x = "x" then 42 else 0) (fun _ => false) (fun _ _ _ _ => 0)
+  (fun name _ a => if name = "balance_0" ∧ a = 0x1000 then 100 else 0)
+def exWB : Evm.World := { code := valCodes, storage := [], transient := [], balance := [(0x1000, 100)] }
+
+/-- the model explores the transfer (path satisfied by the valuation: 95 returned, 95 / 5 wei left) and the
+    insufficient-funds branch (not satisfied by it); the reference does the transfer -/
+example :
+    (runC foldSimp exOracle { balances := true } exEnv valCodes 0x1000 100).ends.map
+        (fun ce => (ce.e.st.path.all (·.eval exIB), (ce.e.data.map (·.eval exIB)).getLast?,
+          balSem exIB exWB ce.bal 0x1000, balSem exIB exWB ce.bal 0x2000)) =
+      [(true, some 95, 95, 5), (false, some 100, 100, 0)] ∧
+    (Evm.exec exPC 60 exWB { exF0 with code := valCaller }).map
+        (fun r => (r.2.data.getLast?, r.1.balanceOf 0x1000, r.1.balanceOf 0x2000)) = some (some 95, 95, 5) := by
+  decide +kernel
+
+/-- the valuation agrees with the start world on the initial balances (`hbal` of `sound_calls`), and the start world
+    respects the bound of `C02.complete_calls` -/
+theorem exIB_bal : BalHyp exIB { balances := true } exWB := by
+  refine ⟨fun a => ?_, fun a => ?_⟩
+  · by_cases h : a = 0x1000
+    · subst h; decide +kernel
+    · have h' : ((0x1000 : Nat) == a) = false := by rw [beq_eq_false_iff_ne]; exact fun e => h e.symm
+      simp [baseVal, exIB, Interp.std, h, exWB, Evm.World.balanceOf, Evm.lookupD, List.find?_cons, h']
+  · simp [exIB, Interp.std]
+
+theorem exWB_bound : BalBound exWB := by
+  refine ⟨[0x1000], by simp, fun a ha => ?_, by decide +kernel⟩
+  have h : ¬ a = 0x1000 := by simpa using ha
+  have h' : ((0x1000 : Nat) == a) = false := by rw [beq_eq_false_iff_ne]; exact fun e => h e.symm
+  simp [exWB, Evm.World.balanceOf, Evm.lookupD, List.find?_cons, h']
 
 /-- a reverting callee: `sstore(0, 7); mstore(0, 0x2a); revert(0, 32)` -/
 def revCallee : List Nat := [0x60, 7, 0x60, 0, 0x55, 0x60, 0x2a, 0x60, 0, 0x52, 0x60, 32, 0x60, 0, 0xfd]
